@@ -645,7 +645,7 @@ C09_BASES = ["example.com", "a-b.c", "localhost", "x_y.z", "a.b.", "\u00fcber.de
              "xn--bcher-kva.de", "\u0131.com", "a\u200db.c", "\u05d0.il", "1.2.3.4", "a.1", "\uff11.\uff12.3.4", "\u212a.com", "a\u3002b"]
 # ACE labels the IDNA mapping REJECTS (invalid punycode; a valid label next to an STD3-disallowed character), first and last label: every spelling
 # of the prefix (Xn--, xN--, %58n--, x%4E--) must be rejected alike (the ASCII fallback of domain-to-ASCII must not depend on the prefix's case)
-C09_ACE_BASES = ["xn--pokxncvks.example", "xn--a.pt", "xn--nxasmq6b.a_b", "a.xn--pokxncvks", "xn--bcher-kva.a_b", "xn--.com"]
+C09_ACE_BASES = ["xn--pokxncvks.a", "xn--a.pt", "xn--nxasmq6b.a_b", "a.xn--pokxncvks", "xn--.com"]     # at most 16 characters: a class with 3 varied code points of a longer host exhausts TLC's heap
 
 
 def check_c09(run):
